@@ -142,6 +142,14 @@ inductive Op (μ ρ : Type) where
   /-- `solver.initialize_with = value`; `accepted` = the value is one of the known modes
       (and not `'alt_min'` on the alternating-minimisation solver) -/
   | setInit (accepted : Bool)
+  /-- a call of the non-mutating API: `calc_Q`, `calc_Q_rev`, `calc_SINR`, `calc_SINR_in_dB`,
+      `calc_sum_capacity`, `calc_remaining_interference_percentage`, `get_cost`, `repr`, `noise_var`,
+      `K`, `Nr`, `Nt` (whatever it returns or raises).  Internally such a call may read
+      `full_F` / `full_W_H`; by `ObsEq` (Proofs/C10Obs.lean) that is not observable, so the model
+      does nothing. -/
+  | query
+  /-- the object is replaced by a deep copy / a pickle round trip of itself -/
+  | fork
   | readF | readFullF | readW | readWH | readFullWH | readFullW | readNs | readP
   deriving Repr
 
@@ -334,6 +342,8 @@ def step (cfg : Cfg) (O : Ops μ ρ) (K : Nat) (st : State μ ρ) : Op μ ρ →
   | .solve cf ns p sol => doSolve cfg O K st cf ns p sol
   | .clear => ({ clearRx (clearTx cfg st) with p := none, ns := none }, .unit)
   | .setInit accepted => (st, if accepted then .unit else .err .RuntimeError)
+  | .query => (st, .unit)
+  | .fork => (st, .unit)
   | .readF => (st, .arr st.f)
   | .readFullF => let r := readFullF O K st; (r.1, outArr r.2)
   | .readW => let r := readW O st; (r.1, .arr r.2)
